@@ -107,3 +107,144 @@ Proof.
   { rewrite firstn_app, firstn_all, Nat.sub_diag. cbn [firstn]. apply app_nil_r. }
   rewrite EF. rewrite firstn_app, firstn_all, Nat.sub_diag. cbn [firstn]. apply app_nil_r.
 Qed.
+
+(* ---------- the picture at cell level ---------- *)
+Lemma nth_error_zrange a b i : (i < Z.to_nat (b - a))%nat -> nth_error (zrange a b) i = Some (a + Z.of_nat i).
+Proof.
+  intros H. unfold zrange. rewrite nth_error_map.
+  assert (E : nth_error (seq 0 (Z.to_nat (b - a))) i = Some i).
+  { rewrite (nth_error_nth' (seq 0 (Z.to_nat (b - a))) 0%nat) by (now rewrite seq_length).
+    now rewrite seq_nth. }
+  now rewrite E.
+Qed.
+
+Lemma nth_error_combine {A B} : forall (l1 : list A) (l2 : list B) i a b,
+  nth_error l1 i = Some a -> nth_error l2 i = Some b -> nth_error (combine l1 l2) i = Some (a, b).
+Proof.
+  induction l1 as [|x l1 IH]; intros [|y l2] [|i] a b H1 H2; try discriminate; cbn in *.
+  - now injection H1 as ->; injection H2 as ->.
+  - now apply IH.
+Qed.
+
+Lemma nth_error_indexed {A B} (f : Z * A -> B) (l : list A) i x :
+  nth_error l i = Some x ->
+  nth_error (map f (combine (zrange 0 (Z.of_nat (length l))) l)) i = Some (f (Z.of_nat i, x)).
+Proof.
+  intros H. rewrite nth_error_map.
+  assert (Hi : (i < length l)%nat) by (apply nth_error_Some; congruence).
+  rewrite (nth_error_combine _ _ i (0 + Z.of_nat i) x); [reflexivity| |assumption].
+  apply nth_error_zrange. lia.
+Qed.
+
+Definition with_attr (m : mmap) (r c : Z) (x : cell) : cell :=
+  {| crow := crow x; ccol := ccol x; cval := cval x; cplace := cplace x; cmerge := attr_of (mget m r c) |}.
+
+Lemma get_cell_refresh m d r c x : 0 <= r -> 0 <= c -> get_cell d r c = Some x ->
+  get_cell (refresh m d) r c = Some (with_attr m r c x).
+Proof.
+  intros Hr Hc. unfold get_cell, refresh.
+  destruct (nth_error d (Z.to_nat r)) as [row|] eqn:Er; [|discriminate]. intros Hx.
+  rewrite (nth_error_indexed _ d (Z.to_nat r) row Er). cbn [fst snd].
+  rewrite (nth_error_indexed _ row (Z.to_nat c) x Hx). cbn [fst snd]. unfold with_attr.
+  now replace (Z.of_nat (Z.to_nat r)) with r by lia; replace (Z.of_nat (Z.to_nat c)) with c by lia.
+Qed.
+
+Lemma nth_error_set_nth_eq {A} : forall (l : list A) i x, (i < length l)%nat -> nth_error (set_nth l i x) i = Some x.
+Proof. induction l as [|h t IH]; intros [|i] x H; cbn in *; try lia; [reflexivity|apply IH; lia]. Qed.
+Lemma nth_error_set_nth_neq {A} : forall (l : list A) i j x, i <> j -> nth_error (set_nth l i x) j = nth_error l j.
+Proof. exact (@set_nth_other A). Qed.
+
+Lemma get_set_cell_same d r c x y : 0 <= r -> 0 <= c -> get_cell d r c = Some y -> get_cell (set_cell d r c x) r c = Some x.
+Proof.
+  intros Hr Hc. unfold get_cell, set_cell.
+  destruct (nth_error d (Z.to_nat r)) as [row|] eqn:Er; [|discriminate]. intros Hy.
+  rewrite nth_error_set_nth_eq by (apply nth_error_Some; congruence).
+  apply nth_error_set_nth_eq. apply nth_error_Some. congruence.
+Qed.
+
+Lemma get_set_cell_other d r c x r' c' : 0 <= r -> 0 <= c -> 0 <= r' -> 0 <= c' -> (r, c) <> (r', c') ->
+  get_cell (set_cell d r c x) r' c' = get_cell d r' c'.
+Proof.
+  intros Hr Hc Hr' Hc' Hne. unfold get_cell, set_cell.
+  destruct (nth_error d (Z.to_nat r)) as [row|] eqn:Er; [|reflexivity].
+  destruct (Z.eq_dec r r') as [<-|Hrr].
+  - rewrite nth_error_set_nth_eq by (apply nth_error_Some; congruence). rewrite Er.
+    apply nth_error_set_nth_neq. intros E. apply Hne. f_equal. lia.
+  - rewrite nth_error_set_nth_neq by lia. reflexivity.
+Qed.
+
+(* the data after the placeholder loop *)
+Lemma fold_step_data (r0 c0 r1 c1 : Z) : forall ps m d r c,
+  Forall (fun p => 0 <= fst p /\ 0 <= snd p) ps -> 0 <= r -> 0 <= c ->
+  (forall p, In p ps -> exists y, get_cell d (fst p) (snd p) = Some y) ->
+  let d' := snd (fold_left (fun (st : mmap * list (list cell)) (p : Z * Z) =>
+         let '(r, c) := p in
+         (mset (fst st) r c (RRef r0 c0 r1 c1), set_cell (snd st) r c (merged_cell (fst st) r c))) ps (m, d)) in
+  (existsb (fun p => (r =? fst p) && (c =? snd p)) ps = false -> get_cell d' r c = get_cell d r c) /\
+  (existsb (fun p => (r =? fst p) && (c =? snd p)) ps = true ->
+     exists x, get_cell d' r c = Some x /\ cplace x = true /\ cval x = None).
+Proof.
+  induction ps as [|[pr pc] ps IH]; intros m d r c HF Hr Hc Hin; cbn [fold_left existsb fst snd].
+  - split; [reflexivity|discriminate].
+  - pose proof (Forall_inv HF) as [Hpr Hpc]. cbn [fst snd] in Hpr, Hpc.
+    destruct (Hin (pr, pc) (or_introl eq_refl)) as [y0 Hy0]. cbn [fst snd] in Hy0.
+    assert (Hin' : forall p, In p ps -> exists y, get_cell (set_cell d pr pc (merged_cell m pr pc)) (fst p) (snd p) = Some y).
+    { intros p Hp. destruct (Hin p (or_intror Hp)) as [y Hy].
+      pose proof (proj1 (Forall_forall _ _) (Forall_inv_tail HF) p Hp) as [Hp1 Hp2].
+      destruct (Z.eq_dec pr (fst p)) as [E1|N1]; [destruct (Z.eq_dec pc (snd p)) as [E2|N2]|].
+      - rewrite <- E1, <- E2. eexists. eapply get_set_cell_same; eauto.
+      - rewrite get_set_cell_other; eauto. intros E. injection E. lia.
+      - rewrite get_set_cell_other; eauto. intros E. injection E. lia. }
+    specialize (IH (mset m pr pc (RRef r0 c0 r1 c1)) (set_cell d pr pc (merged_cell m pr pc)) r c (Forall_inv_tail HF) Hr Hc Hin').
+    cbv zeta in IH. destruct IH as [IH1 IH2].
+    destruct ((r =? pr) && (c =? pc)) eqn:E; cbn [orb].
+    + apply andb_prop in E as [E1 E2]. apply Z.eqb_eq in E1, E2. subst pr pc.
+      split; [discriminate|]. intros _.
+      destruct (existsb (fun p => (r =? fst p) && (c =? snd p)) ps) eqn:Ex.
+      * exact (IH2 eq_refl).
+      * rewrite (IH1 eq_refl). eexists. split; [eapply get_set_cell_same; eauto|]. split; reflexivity.
+    + split.
+      * intros Ex. rewrite (IH1 Ex). apply get_set_cell_other; try assumption.
+        intros Eq. injection Eq as -> ->. rewrite !Z.eqb_refl in E. discriminate.
+      * exact IH2.
+Qed.
+
+Lemma rect_cells_nonneg r0 c0 r1 c1 : 0 <= r0 -> 0 <= c0 -> Forall (fun p => 0 <= fst p /\ 0 <= snd p) (rect_cells r0 c0 r1 c1).
+Proof.
+  intros Hr Hc. unfold rect_cells. apply Forall_forall. intros [r c] Hin.
+  apply filter_In in Hin as [Hin _]. apply in_flat_map in Hin as (r' & Hr' & Hin).
+  apply in_map_iff in Hin as (c' & E & Hc'). injection E as <- <-. cbn [fst snd].
+  unfold zrange in *. apply in_map_iff in Hr' as (i & <- & _). apply in_map_iff in Hc' as (j & <- & _). lia.
+Qed.
+
+(* after merging, every cell of the table: merge attributes are the map's entry for its position; the cells of the
+   rectangle other than the anchor are value-less placeholders; every other cell keeps its class, value and position *)
+Theorem merge_picture_lemma t r0 c0 r1 c1 t' : 0 <= r0 -> 0 <= c0 -> merge_cells t r0 c0 r1 c1 = Ok t' ->
+  forall r c x, 0 <= r -> 0 <= c -> get_cell (data t) r c = Some x ->
+  exists x', get_cell (data t') r c = Some x' /\ cmerge x' = attr_of (mget (merges t') r c) /\
+    (if existsb (fun p => (r =? fst p) && (c =? snd p)) (rect_cells r0 c0 r1 c1)
+     then cplace x' = true /\ cval x' = None
+     else cplace x' = cplace x /\ cval x' = cval x /\ crow x' = crow x /\ ccol x' = ccol x).
+Proof.
+  intros Hr0 Hc0. unfold merge_cells. fold (rect_cells r0 c0 r1 c1).
+  destruct (existsb (fun p => match get_cell (data t) (fst p) (snd p) with None => true | Some _ => false end)
+                    (rect_cells r0 c0 r1 c1)) eqn:Ein; [discriminate|].
+  destruct (fold_left _ (rect_cells r0 c0 r1 c1) _) as [m1 d1] eqn:E.
+  intros H. injection H as <-. cbn [data merges]. intros r c x Hr Hc Hx.
+  assert (Hall : forall p, In p (rect_cells r0 c0 r1 c1) -> exists y, get_cell (data t) (fst p) (snd p) = Some y).
+  { intros p Hp. pose proof (proj1 (existsb_false_iff _ _) Ein) as HF || idtac.
+    destruct (get_cell (data t) (fst p) (snd p)) as [y|] eqn:Ey; [eauto|].
+    exfalso. assert (existsb (fun p => match get_cell (data t) (fst p) (snd p) with None => true | Some _ => false end)
+                             (rect_cells r0 c0 r1 c1) = true).
+    { apply existsb_exists. exists p. split; [assumption|]. now rewrite Ey. }
+    congruence. }
+  pose proof (fold_step_data r0 c0 r1 c1 (rect_cells r0 c0 r1 c1)
+                (mset (merges t) r0 c0 (RAnchor (r1 - r0 + 1) (c1 - c0 + 1))) (data t) r c
+                (rect_cells_nonneg r0 c0 r1 c1 Hr0 Hc0) Hr Hc Hall) as FD.
+  cbv zeta in FD. rewrite E in FD. cbn [snd] in FD. destruct FD as [FD1 FD2].
+  destruct (existsb (fun p => (r =? fst p) && (c =? snd p)) (rect_cells r0 c0 r1 c1)) eqn:Ex.
+  - destruct (FD2 eq_refl) as (y & Hy & Hp & Hv).
+    exists (with_attr m1 r c y). split; [now apply get_cell_refresh|]. split; [reflexivity|]. split; assumption.
+  - rewrite <- (FD1 eq_refl) in Hx.
+    exists (with_attr m1 r c x). split; [now apply get_cell_refresh|]. split; [reflexivity|]. repeat split.
+Qed.
